@@ -1,6 +1,8 @@
 """C10 - Every start/stop job terminates in bounded ticks whatever gets lost."""
 from pyvc.spec import *
 
+GROUP = 'commander'   # contracts of one group use each other's contracts at call sites (pyvc/hooks.py contract_for_call)
+
 STARTING_LIKE = (ProcessStates.BACKOFF, ProcessStates.STARTING)
 STOPPED_LIKE = (ProcessStates.STOPPED, ProcessStates.EXITED, ProcessStates.FATAL, ProcessStates.UNKNOWN)
 
